@@ -5,7 +5,7 @@ CFG = dict(
     lean_modules=["ElysModel.Props.C15"],
     props_files=["ElysModel/Props/C15.lean"],
     pre_cmds=["cd harness && go run ./cmd/mintburn -out ../lean/ElysModel/Gen/MintBurn.lean"],
-    runs=[scn_run("c15"), hist_run(), hist_run(nq=200, sq=6, st=10, focus="cm.")],
+    runs=[scn_run("c15"), hist_run(), hist_run(nq=200, sq=6, st=10, focus="cm."), gentrip_run(focus="cm.")],
     rule=HIST_RULE + "; plus the directed burner scenario (mode scn, prefix c15)",
     trusted_base=COMMON_TB + ["mint/burn sites are the x/bank coinbase/burn events of real blocks, classified by (module account, denom, enclosing message kind)"],
     assumptions=["IBC vouchers, x/mint inflation, slashing and governance burns do not occur in the generated worlds",
